@@ -98,7 +98,12 @@ def rule_d1(repo):
                         est.add((n.id, pas))
                         sites.append(n.lineno)
             elif n.kind == 'iter':
-                apis = _repo_api_closure(repo, f, flow, n.ast.iter)
+                # a checking loop: what is consulted is the sequence together with the tests made of its elements (`for v in args: if not v.is_var(): raise`)
+                apis = set(_repo_api_closure(repo, f, flow, n.ast.iter))
+                inside = {id(x) for s_ in n.ast.body for x in ast.walk(s_)}
+                for t_ in cfg.test_nodes():
+                    if id(t_.ast) in inside:
+                        apis |= set(_repo_api_closure(repo, f, flow, t_.ast))
                 if match(apis, n.ast.iter) and any(isinstance(x, ast.Raise) for s in n.ast.body for x in ast.walk(s)):
                     est.add((n.id, 'done'))
                     sites.append(n.lineno)
